@@ -9,7 +9,7 @@ import codec
 from props import c01
 
 PROP = "C11"
-LEAN_MODULES = ["Props.C11"]
+LEAN_MODULES = ["Props.C11", "Props.Legacy"]
 RULE = (
     "case = (1-6 fields of mixed kinds, value list incl. runs of leading / trailing missing values, delimiter in ; , | tab :: ;; and delimiters with blanks such as ', ' '; ' ' | ', blank padding per token, a "
     "sequence of 1-6 further lines with short / exact / long token counts). One real Line(fields, delimiter=d): write "
